@@ -99,6 +99,12 @@ def uRet (s : Nat) : PC → Nat
   | .closeRetire s' => if s' = s then 1 else 0
   | _ => 0
 
+/-- 1 iff the thread deleted `s` from the live list and is parked before inserting it into the
+    dead list -/
+def uRet2 (s : Nat) : PC → Nat
+  | .closeRetire2 s' => if s' = s then 1 else 0
+  | _ => 0
+
 /-- 1 iff the thread is inside the collector's critical section (holds `isGCRunning`) -/
 def uCrit : PC → Nat
   | .collectRead | .collectSend _ | .gcUnlock => 1
